@@ -45,16 +45,19 @@ type shOp struct {
 }
 
 type shScenario struct {
-	Kind        ClientKind
-	Callers     [][]shOp
-	CloseAt     time.Duration // <0: no Close task
-	ConnectAt   time.Duration // <0: no Connect task
-	DevDelay    time.Duration // max device think time
-	Race        bool
-	Cancels     bool // some calls carry short context deadlines (stale replies follow: attribution oracles off, transport monitors on)
-	FineGrained bool
-	Flusher     bool
-	Hooks       bool // logging hooks installed on the client; every hook call is a scheduling point
+	Kind          ClientKind
+	Callers       [][]shOp
+	CloseAt       time.Duration // <0: no Close task
+	ConnectAt     time.Duration // <0: no Connect task
+	DevDelay      time.Duration // max device think time
+	Race          bool
+	Cancels       bool // some calls carry short context deadlines (stale replies follow: attribution oracles off, transport monitors on)
+	FineGrained   bool
+	Flusher       bool
+	Hooks         bool          // logging hooks installed on the client; every hook call is a scheduling point
+	Close2After   time.Duration // >=0: a second Close call that long after the first
+	SlowOps       bool          // dialling and closing the port take (a little) time and are scheduling points
+	ShortTimeouts bool          // network client with ReadTimeout 40 ms / WriteTimeout 5 ms (the device answers within 3 ms)
 }
 
 type shRec struct {
@@ -151,6 +154,12 @@ func genC14(t *Tape) *shScenario {
 		}
 	}
 	sc.Hooks = t.Choose(3) == 0
+	sc.Close2After = -1
+	if sc.CloseAt >= 0 && t.Choose(3) == 0 {
+		sc.Close2After = time.Duration(t.Choose(400)) * time.Microsecond
+	}
+	sc.SlowOps = t.Choose(2) == 0
+	sc.ShortTimeouts = sc.Kind != KSerial && !sc.Cancels && t.Choose(3) == 0
 	return sc
 }
 
@@ -335,7 +344,15 @@ func runShared(rc *RunCtx, sc *shScenario) *shOutcome {
 	switch sc.Kind {
 	case KTCP, KRTU:
 		conf := modbus.ClientConfig{ReadTimeout: 200 * time.Millisecond, WriteTimeout: time.Second,
-			DialContextFunc: func(context.Context, string) (net.Conn, error) { return newPipe(), nil }}
+			DialContextFunc: func(context.Context, string) (net.Conn, error) {
+				if sc.SlowOps {
+					takeTime(s, "dial", nil, 300*time.Microsecond)
+				}
+				return newPipe(), nil
+			}}
+		if sc.ShortTimeouts {
+			conf.ReadTimeout, conf.WriteTimeout = 40*time.Millisecond, 5*time.Millisecond
+		}
 		if hooks != nil {
 			conf.Hooks = hooks
 		}
@@ -352,9 +369,9 @@ func runShared(rc *RunCtx, sc *shScenario) *shOutcome {
 		cl.SerialMode = true
 		cl.PortTimeout = 2 * time.Millisecond
 		cl.MinReadCost = 500 * time.Microsecond
-		var port io.ReadWriteCloser = plainPort{cl}
+		var port io.ReadWriteCloser = slowClosePlainPort{plainPort{cl}, sc.SlowOps}
 		if sc.Flusher {
-			port = discardingFlushPort{cl} // a port whose Flush really discards what has not been read yet
+			port = discardingFlushPort{cl, sc.SlowOps} // a port whose Flush really discards what has not been read yet
 		}
 		opts := []modbus.SerialClientOptionFunc{modbus.WithSerialReadTimeout(200 * time.Millisecond)}
 		if hooks != nil {
@@ -509,6 +526,14 @@ func runShared(rc *RunCtx, sc *shScenario) *shOutcome {
 	if sc.CloseAt >= 0 {
 		s.Go("closer", false, func(tk *Task) {
 			if tk.Sleep("close-timer", sc.CloseAt) == Drained {
+				return
+			}
+			closer()
+		})
+	}
+	if sc.CloseAt >= 0 && sc.Close2After >= 0 {
+		s.Go("closer2", false, func(tk *Task) {
+			if tk.Sleep("close-timer", sc.CloseAt+sc.Close2After) == Drained {
 				return
 			}
 			closer()
@@ -673,11 +698,43 @@ func describeHistory(recs []shRec) string {
 }
 
 // discardingFlushPort is a serial port with Flusher whose Flush drops the bytes that have arrived but were not read.
-type discardingFlushPort struct{ c *Conn }
+type discardingFlushPort struct {
+	c    *Conn
+	slow bool
+}
+
+// slowClosePlainPort: a port without Flush whose Close takes a moment.
+type slowClosePlainPort struct {
+	plainPort
+	slow bool
+}
+
+func (p slowClosePlainPort) Close() error {
+	if p.slow {
+		takeTime(p.c.sim, "port-close:"+p.c.Name, p.c.locker(), 200*time.Microsecond)
+	}
+	return p.c.Close()
+}
+
+// takeTime parks the calling goroutine for d of simulated time (a scheduling point).
+func takeTime(s *Sim, id string, lk sync.Locker, d time.Duration) {
+	until := time.Now().Add(d)
+	s.ParkL(id, id, lk, func(now time.Time) (bool, Reason, time.Time) {
+		if !now.Before(until) {
+			return true, Ready, time.Time{}
+		}
+		return false, Ready, until
+	})
+}
 
 func (p discardingFlushPort) Read(b []byte) (int, error)  { return p.c.Read(b) }
 func (p discardingFlushPort) Write(b []byte) (int, error) { return p.c.Write(b) }
-func (p discardingFlushPort) Close() error                { return p.c.Close() }
+func (p discardingFlushPort) Close() error {
+	if p.slow {
+		takeTime(p.c.sim, "port-close:"+p.c.Name, p.c.locker(), 200*time.Microsecond)
+	}
+	return p.c.Close()
+}
 func (p discardingFlushPort) Flush() error {
 	// a transport operation like any other: other tasks may be scheduled before it takes effect
 	if p.c.sim.ParkL("fl:"+p.c.Name, "flush", p.c.locker(), always) == Drained {
